@@ -5,6 +5,7 @@ import (
 	"go/constant"
 	"go/token"
 	"go/types"
+	"sort"
 )
 
 func init() {
@@ -572,6 +573,12 @@ func c07(c *Ctx) {
 		}
 	}
 
+	// R10 recycled output points are completely rewritten
+	c.Rule("R10", "E8 fieldcover on every path", "collect methods: every field of a recycled output data point that the loop assigns at all is assigned on every path of the iteration (reset does not zero; a slot may have belonged to another instrument), so Sum, Min and Max are the point's own or unset", 4)
+	if n := ruleRecycledPoints(c, ax, "R10"); n == 0 {
+		c.Violation("R10", "aggregate|collect methods|recycled points", at(ax.M, ax.Pkg.Syntax[0].Pos()), "no collect loop over recycled data points found: the analysis no longer sees the loops it was built on")
+	}
+
 	c.Rule("R8", "E10 type width + E3 must-pass", "exponential buckets: the bin-window arithmetic of scaleChange is carried out in a 64-bit integer on every platform (bins span more than 2^31 at scale 20); a window grown inside spare capacity is zeroed before use (down-scaling leaves stale counts behind len)", 3)
 	if fn := c.Fn(ax, "R8", "(*expoHistogramDataPoint).scaleChange"); fn != nil {
 		sizes := ax.Pkg.TypesSizes
@@ -1004,4 +1011,157 @@ func lowerBoundSearch(ix *PkgIndex, fn *FuncInfo, e ast.Expr, fBounds *types.Var
 		}
 	}
 	return false
+}
+
+// ruleRecycledPoints: the collect methods write their output into data points recycled from the destination of the previous
+// collection (`reset` re-slices, it does not zero). pipeline.produce pairs destinations with instruments by position, so a
+// recycled point may come from another instrument. Every field of the element that a collect loop assigns at all is therefore
+// assigned on every path through the iteration — a field written only under `if !noSum` / `if !noMinMax` keeps what the
+// slot's previous owner put there. Shared by C07.R10 (exact sum/min/max of every point) and C08.R9 (the two temporalities
+// report the same optional fields).
+func ruleRecycledPoints(c *Ctx, ax *PkgIndex, rule string) int {
+	info := ax.Pkg.TypesInfo
+	resetFn := ax.Func("reset")
+	if resetFn == nil {
+		c.Missing(rule, "aggregate.reset")
+		return 0
+	}
+	nLoops := 0
+	for _, f := range sortedFuncs(ax.Funcs) {
+		if f.Body() == nil {
+			continue
+		}
+		g := ax.FG(f)
+		// locals that hold a recycled slice
+		recycled := map[types.Object]bool{}
+		inspectNoLit(f.Body(), func(n ast.Node) bool {
+			if as, ok := n.(*ast.AssignStmt); ok && len(as.Lhs) == 1 && len(as.Rhs) == 1 {
+				if call, ok := unparen(as.Rhs[0]).(*ast.CallExpr); ok && callToDecl(info, resetFn)(call) {
+					if o := objOf(info, as.Lhs[0]); o != nil {
+						recycled[o] = true
+					}
+				}
+			}
+			return true
+		})
+		if len(recycled) == 0 {
+			continue
+		}
+		// element field written by node n: D[i].F = … / D[i].F.G = … / &D[i].F handed to a call
+		fieldOfElem := func(e ast.Expr) (types.Object, string) {
+			e = unparen(e)
+			var path []string
+			for {
+				sel, ok := e.(*ast.SelectorExpr)
+				if !ok {
+					break
+				}
+				path = append([]string{sel.Sel.Name}, path...)
+				e = unparen(sel.X)
+			}
+			ie, ok := e.(*ast.IndexExpr)
+			if !ok || len(path) == 0 {
+				return nil, ""
+			}
+			if o := objOf(info, ie.X); o != nil && recycled[o] {
+				return o, path[0]
+			}
+			return nil, ""
+		}
+		writes := map[types.Object]map[string][]*GNode{}
+		wholeElem := map[types.Object]bool{}
+		for _, x := range g.Nodes {
+			if x.N == nil || !g.InCycle(x) {
+				continue
+			}
+			inspectNoLit(x.N, func(n ast.Node) bool {
+				switch y := n.(type) {
+				case *ast.AssignStmt:
+					for _, l := range y.Lhs {
+						if o, fld := fieldOfElem(l); o != nil {
+							if writes[o] == nil {
+								writes[o] = map[string][]*GNode{}
+							}
+							writes[o][fld] = append(writes[o][fld], x)
+						}
+						if ie, ok := unparen(l).(*ast.IndexExpr); ok {
+							if o := objOf(info, ie.X); o != nil && recycled[o] {
+								wholeElem[o] = true // D[i] = T{…}: the whole point is replaced
+							}
+						}
+					}
+				case *ast.UnaryExpr:
+					if y.Op == token.AND {
+						if o, fld := fieldOfElem(y.X); o != nil {
+							if writes[o] == nil {
+								writes[o] = map[string][]*GNode{}
+							}
+							writes[o][fld] = append(writes[o][fld], x)
+						}
+					}
+				}
+				return true
+			})
+		}
+		var objs []types.Object
+		for o := range writes {
+			objs = append(objs, o)
+		}
+		sort.Slice(objs, func(i, j int) bool { return objs[i].Pos() < objs[j].Pos() })
+		for _, o := range objs {
+			if wholeElem[o] {
+				continue
+			}
+			nLoops++
+			var flds []string
+			for fld := range writes[o] {
+				flds = append(flds, fld)
+			}
+			sort.Strings(flds)
+			// the loop: the innermost loop body containing the first write
+			var bad []string
+			var badPos token.Pos
+			for _, fld := range flds {
+				ws := toSet(writes[o][fld])
+				first := writes[o][fld][0]
+				// some write of the field lies on every path of an iteration: walking back from the loop's back edge … simpler
+				// forward form: from any other field's write site of the same iteration a path to the loop head avoiding ws
+				// must not exist for *every* iteration entry. Use the iteration head of the loop that encloses `first`.
+				var body *GNode
+				bestSpan := 1 << 40
+				for b, h := range g.head {
+					k := b.Kind.String()
+					if (k == "RangeBody" || k == "ForBody") && b.Stmt != nil && containsNoLit(b.Stmt, first.N) {
+						if span := nodeCount(b.Stmt); span < bestSpan {
+							bestSpan, body = span, h
+						}
+					}
+				}
+				if body == nil {
+					continue
+				}
+				loopStmt := body.Blk.Stmt
+				seen, parent := g.Reach([]*GNode{body}, func(y *GNode) bool { return ws[y] }, nil)
+				for y := range seen {
+					if y.N == nil && y.Blk != nil && y.Blk.Stmt == loopStmt {
+						k := y.Blk.Kind.String()
+						if k == "RangeLoop" || k == "ForLoop" || k == "ForPost" {
+							bad = append(bad, fld+" ("+g.pathLines(parent, y)+")")
+							if badPos == token.NoPos {
+								badPos = first.N.Pos()
+							}
+						}
+					}
+				}
+			}
+			key := "aggregate|" + f.Name + "|every assigned field of the recycled points " + o.Name() + " is assigned on every path of the iteration"
+			pos := f.Pos()
+			if badPos != token.NoPos {
+				pos = badPos
+			}
+			c.Check(len(bad) == 0, rule, key, at(ax.M, pos), itoa(len(flds))+" fields, each written in every iteration",
+				"an iteration can leave "+joinStr(bad)+" of a recycled data point as the slot's previous owner wrote it: the point reports a sum / minimum / maximum that is not its own (the slot may have belonged to another instrument)")
+		}
+	}
+	return nLoops
 }
